@@ -19,10 +19,11 @@ func init() {
 		ID: "C13", Level: "exploration", Race: true,
 		Rule: "(a) sequential histories over seeded sets and scope trees: after Close returned on a scope (directly, through an ancestor, through provider.Close, or by cancelling its context with a bounded wait) every Get*/CreateScope on it and on every descendant must report ErrScopeDisposed, provider operations ErrProviderDisposed. " +
 			"(b) overlaps, exhaustive over pause points: for op in {Get scoped, Get transient with dependencies, GetGroup, GetKeyed, CreateScope with initializers, child CreateScope} x closer in {scope.Close, ancestor.Close, provider.Close, context cancel}: the op is parked at each of its user-code callbacks j, the closer runs to completion, the op resumes; and the mirror image (closer parked inside each disposable's Close, the op runs), and the sandwich (op parked in a constructor, closer parked inside a disposable's Close after the disposal list was drained, op released first). " +
+			"(c) close vs close: a middle scope's Close (or its context watcher) is parked inside each of its first disposable Closes while an ancestor / the provider is closed from another goroutine; when that second call returns - even while the first is still parked - every scope of the subtree (own, inherited and request-like contexts) must refuse Get and CreateScope. " +
 			"Oracle: the op returns normally or with the disposed error, never a recovered panic, never a hang (deadlock = goroutines stuck in godi in two samples); a returned scope/instance is usable or consistently disposed; at the end every container-created disposable was closed exactly once; the history is linearizable against the scope-tree model (porcupine). Non-trivial: the op really overlapped the closer (gate reached); distinct = scenario x pause point.",
 		Shards:        func(tier string) int { return 16 },
 		Run:           runC13,
-		NeedEvents:    []string{"sequential_post_close_ops", "overlap_pause_points", "mirror_pause_points", "sandwich_pause_points", "porcupine_histories", "cancel_awaits"},
+		NeedEvents:    []string{"sequential_post_close_ops", "overlap_pause_points", "mirror_pause_points", "sandwich_pause_points", "porcupine_histories", "cancel_awaits", "close_vs_close_descendant_overlaps", "post_close_probes"},
 		ShardTimeoutS: func(tier string) int { return 900 },
 	})
 }
@@ -114,6 +115,7 @@ func runC13(c *eng.Ctx) {
 	idxN := 0
 	next := func() (int, bool) { i := idxN; idxN++; return i, c.Mine(i) }
 	runC13Sequential(c, next)
+	runC13CloseVsClose(c, next)
 	// (b) overlaps
 	reps := c.Pick(1, 6)
 	for _, sc := range overlapScenarios() {
